@@ -336,8 +336,13 @@ func checkAPIKey(r *http.Request) *AuthToken {
 	// Check if the provided API key exists.
 	token, ok := apiKeys[key]
 	if !ok {
+		// Only log a short hint of the key. The key may be shorter than that.
+		keyHint := key
+		if len(keyHint) > 4 {
+			keyHint = keyHint[:4]
+		}
 		log.Tracer(r.Context()).Tracef(
-			"api: provided api key %s... is unknown", key[:4],
+			"api: provided api key %s... is unknown", keyHint,
 		)
 		return nil
 	}
